@@ -739,16 +739,21 @@ func (s *Server) cmdSET(msg *Message) (resp.Value, commandDetails, error) {
 				var err error
 				z, err = strconv.ParseFloat(args[i+1], 64)
 				if err == nil {
+					if math.IsNaN(z) || math.IsInf(z, 0) {
+						return retwerr(errInvalidArgument(args[i+1]))
+					}
 					hasZ = true
 					i++
 				}
 			}
+			// NaN and Inf parse as floats, but an object with such a
+			// coordinate can neither be found nor removed in the index
 			y, err := strconv.ParseFloat(slat, 64)
-			if err != nil {
+			if err != nil || math.IsNaN(y) || math.IsInf(y, 0) {
 				return retwerr(errInvalidArgument(slat))
 			}
 			x, err := strconv.ParseFloat(slon, 64)
-			if err != nil {
+			if err != nil || math.IsNaN(x) || math.IsInf(x, 0) {
 				return retwerr(errInvalidArgument(slon))
 			}
 			if !hasZ {
@@ -764,7 +769,7 @@ func (s *Server) cmdSET(msg *Message) (resp.Value, commandDetails, error) {
 			for j := 0; j < 4; j++ {
 				var err error
 				vals[j], err = strconv.ParseFloat(args[i+1+j], 64)
-				if err != nil {
+				if err != nil || math.IsNaN(vals[j]) || math.IsInf(vals[j], 0) {
 					return retwerr(errInvalidArgument(args[i+1+j]))
 				}
 			}
